@@ -505,14 +505,6 @@ def serveH : Handler := fun inp impl => do
 
 /-! ### c07.esclen: `escapedLen` — real, translated, model -/
 
-/-- the number of bytes a prefix of an escaped path decodes to, counted the way the code counts: a `%` stands for one
-byte together with the (up to) two bytes behind it — the specification's reference, written without a cursor -/
-def decodedCount : Bytes → Nat
-  | [] => 0
-  | c :: s => if c = PCT then 1 + decodedCount (s.drop 2) else 1 + decodedCount s
-termination_by s => s.length
-decreasing_by all_goals simp_wf <;> omega
-
 def escLenH : Handler := fun inp impl => do
   let s ← bytes inp "s"
   let n ← int inp "n"
